@@ -5,6 +5,7 @@ import (
 	"os"
 	"runtime/debug"
 	"strings"
+	"time"
 
 	"metacontroller/pkg/controller/common"
 	vs "metacontroller/pkg/internal/verifsim"
@@ -28,6 +29,7 @@ type Env struct {
 	QueueViolations []string
 	// LateHookCalls: sync/finalize hook exchanges that completed after the sync that made them had returned.
 	LateHookCalls []string
+	runEnd        map[int]time.Time
 	// OGStyle: how healthy children report status.observedGeneration:
 	// 0 = their generation, 1 = not at all, 2 = as a string, 3 = constant 0.
 	OGStyle int
@@ -188,6 +190,20 @@ func (e *Env) judgeQueueKeys(t *SyncTrace, key string) {
 	}
 }
 
+// judgeLateHooks: sync and finalize hooks are only ever called from inside a sync, and their results are part of it.
+// An exchange that completed after the sync it was begun in had returned was made by a goroutine that outlived
+// that sync (customize calls may also come from event handlers and are not judged).
+func (e *Env) judgeLateHooks(hs []*HookExchange) {
+	for _, h := range hs {
+		if h.URL != SyncURL && h.URL != FinalizeURL {
+			continue
+		}
+		if end, ok := e.runEnd[h.Epoch]; ok && h.DoneAt.After(end) {
+			e.LateHookCalls = append(e.LateHookCalls, fmt.Sprintf("a %s call begun in sync %d was answered %v after that sync had returned", h.URL, h.Epoch, h.DoneAt.Sub(end).Round(time.Microsecond)))
+		}
+	}
+}
+
 // SharedStateViolation reports what the monitors that run with every sync have found (nil: nothing).
 func (e *Env) SharedStateViolation() error {
 	if len(e.CacheViolations) > 0 {
@@ -217,15 +233,10 @@ func (e *Env) run(f func() error) *SyncTrace {
 		t.PreCache[r] = e.W.CachedList(r)
 	}
 	e.W.Sim.Epoch = e.Syncs
+	prevHookEpoch := e.W.Hooks.Epoch
 	e.W.Hooks.Epoch = e.Syncs
 	seq := e.W.Sim.Seq()
-	for _, h := range e.W.Hooks.Take() {
-		// sync and finalize hooks are only ever called from inside a sync: an exchange recorded after the previous
-		// sync returned was made by a goroutine that outlived it (customize calls may also come from event handlers)
-		if (h.URL == SyncURL || h.URL == FinalizeURL) && e.Syncs > 1 && h.Epoch == e.Syncs-1 {
-			e.LateHookCalls = append(e.LateHookCalls, fmt.Sprintf("a %s call of sync %d arrived after that sync had returned", h.URL, h.Epoch))
-		}
-	}
+	e.judgeLateHooks(e.W.Hooks.Take())
 	e.W.Queue.Take()
 	before := e.W.CacheFingerprint()
 	func() {
@@ -236,6 +247,7 @@ func (e *Env) run(f func() error) *SyncTrace {
 		}()
 		t.Err = f()
 	}()
+	endAt := time.Now()
 	after := e.W.CacheFingerprint()
 	t.CacheMut = DiffFingerprints(before, after)
 	if len(t.CacheMut) > 0 {
@@ -243,11 +255,12 @@ func (e *Env) run(f func() error) *SyncTrace {
 	}
 	t.Reqs = e.W.Sim.LogSince(seq)
 	t.Hooks = e.W.Hooks.Take()
-	for _, h := range t.Hooks {
-		if (h.URL == SyncURL || h.URL == FinalizeURL) && h.Epoch != 0 && h.Epoch < e.Syncs {
-			e.LateHookCalls = append(e.LateHookCalls, fmt.Sprintf("a %s call begun in sync %d completed during sync %d", h.URL, h.Epoch, e.Syncs))
-		}
+	e.judgeLateHooks(t.Hooks)
+	if e.runEnd == nil {
+		e.runEnd = map[int]time.Time{}
 	}
+	e.runEnd[t.N] = endAt
+	e.W.Hooks.Epoch = prevHookEpoch // (a sync may run nested inside a request of another one)
 	t.Queue = e.W.Queue.Take()
 	if os.Getenv("VERIF_TRACE") != "" {
 		fmt.Fprintf(os.Stderr, "--- sync %d\n", t.N)
